@@ -67,7 +67,7 @@ def run(ctx):
                'rows with infinite chi^2: ranking and identity only (observed: remove_resolved never excludes the largest trial aperture, so it yields excluded (model, distance) pairs but no infinite rows; infinities inside chi^2 are mapped to 1e30)', 'remove_resolved only with use_memmap=False (memmap path skips the exclusion; outside every quantifier)',
                'tie order is free')
     ctx.require_events('Fitter.fit:post', 'rows_checked', 'model_fluxes_checked', 'earlier-result-rechecked')
-    ctx.require_regimes('exact_ties', 'rows_1e30', 'rows_non-finite', 'single_model', 'models>=200', 'mode:2d', 'mode:3d', 'style:v1', 'style:v2', 'unit:flux-not-mJy:3d', '3d:distance-range-not-in-kpc')
+    ctx.require_regimes('models>=9000', 'exact_ties', 'rows_1e30', 'rows_non-finite', 'single_model', 'models>=200', 'mode:2d', 'mode:3d', 'style:v1', 'style:v2', 'unit:flux-not-mJy:3d', '3d:distance-range-not-in-kpc')
     n_pkg = 16 if ctx.quick else 240
     n_src = 20 if ctx.quick else 40
     for ip in range(n_pkg):
@@ -81,6 +81,9 @@ def run(ctx):
             n_models = 1500
         if ip == 2:
             n_models = 1
+        if ip == 4 and ctx.shard == 0:
+            n_models = 9001          # a grid of thousands of models (not a multiple of any power of two up to 8192)
+            ctx.regime('models>=9000')
         n_bands = int(rng.integers(2, 7))
         names = gen.model_names(rng, n_models, 'num' if n_models > 30 else None)
         wav = gen.band_wavelengths(rng, n_bands)
